@@ -1,4 +1,5 @@
 import Hive.Proofs.KVConcMore
+import Hive.Proofs.KVConcHist
 import Hive.Proofs.KVLin
 import Hive.Gen.C05_Skel
 /-!
@@ -51,6 +52,45 @@ theorem C05_linearizable_open (scripts : List (List COp)) (hnc : ∀ sc ∈ scri
     have := h.evs e he
     rw [heq] at this
     exact this
+
+/-- **Linearizability w.r.t. the full C04 contract, `Close` included.**  Take the history a harness
+would record of any reachable trace (`histOf`: one operation per linearisation point — each access,
+each closed-flag failure, each `Close` — stamped with the trace positions of its call's invocation
+and response; a call still running returns "at infinity").  It is `Linearizable` in the sense of the
+history checker: there is an order of all operations that respects real time and in which the C04
+ordered map *with its closed flag* (`hstep`: after `Close` every operation answers ErrStoreClosed
+and changes nothing) gives exactly the recorded answers.  The order is that of the linearisation
+points with `Close` and the failed calls moved behind all accesses: an access that the trace
+linearises after the flag swap belongs to a call that had loaded the flag — hence was invoked —
+before the swap (`HInv.g3`), so moving it in front of `Close` does not contradict real time. -/
+theorem C05_linearizable_close (scripts : List (List COp)) (c : Cfg Shared Thread)
+    (hr : Reach sys (initCfg scripts) c) : Lin.Linearizable (histOf c.1.tr).toArray :=
+  Lin.validate_sound _ _ (model_history_validates hr)
+
+/-- **Model ↔ checker (partial).**  For the history of every reachable trace of the protocol model
+the checker's *verified validator* accepts an explicit witness (`witness`: linearisation-point order,
+late operations last) — so the acceptance criterion of `drv_c05` is met by every behaviour of the
+model, and a history on which no witness validates deviates from the model.
+MISSING for "`decideHist` accepts": (a) that the unverified Wing–Gong search `dfs` (a `partial def`,
+opaque to the logic) finds a witness whenever one exists; (b) `decideHist` wants the operations in
+invocation order, `histOf` lists them in linearisation-point order (re-indexing the witness along the
+sorting permutation is not proved). -/
+theorem C05_checker_complete_on_model_partial (scripts : List (List COp)) (c : Cfg Shared Thread)
+    (hr : Reach sys (initCfg scripts) c) :
+    ∃ w, Lin.validate (histOf c.1.tr).toArray w = true :=
+  ⟨_, model_history_validates hr⟩
+
+/-- Where the events of a call sit in a reachable trace: every linearisation point lies after the
+invocation event of its call and before its response event (positions; `retPos = length` if the call
+has not returned), and an access linearised after a `Close` point belongs to a call invoked before
+that `Close` point. -/
+theorem C05_lin_points_in_window (scripts : List (List COp)) (c : Cfg Shared Thread)
+    (hr : Reach sys (initCfg scripts) c) :
+    (∀ p t i a o, c.1.tr[p]? = some (.lin t i a o) → invPos c.1.tr t i < p ∧ p < retPos c.1.tr t i) ∧
+    (∀ p q t i a o e, c.1.tr[p]? = some (.lin t i (.eff a) o) → c.1.tr[q]? = some e → isCloseLin e = true →
+      q < p → invPos c.1.tr t i < q) := by
+  obtain ⟨_, _, _, hh⟩ := hinv_reach hr
+  exact ⟨fun p t i a o hp => ⟨hh.g1 p t i a o hp, hh.g2 p t i a o hp⟩, hh.g3⟩
 
 /-- A finished goroutine has completed exactly the calls of its script: its events are complete
 blocks, one per call. -/
@@ -254,6 +294,11 @@ example : (runSched sys (initCfg sampleScripts) sampleSched).1.tr =
     [.inv 0 0 (.set 1 [1] [255] [7]), .inv 1 0 (.get 0 [] [1, 255]), .lin 1 0 (.eff (.get [1, 255])) .notfound,
      .lin 0 0 (.eff (.set [1, 255] [7])) .ok, .ret 1 0 .notfound, .inv 1 1 (.iter [] [1] .bwd 0), .ret 0 0 .ok,
      .lin 1 1 (.eff (.iter [1] 0 .bwd 0)) (.kvs [([1, 255], [7])]), .ret 1 1 (.kvs [([1, 255], [7])])] := by
+  decide
+
+/-- The recorded history of that run and its witness: validated by computation. -/
+example : Lin.validate (histOf (runSched sys (initCfg sampleScripts) sampleSched).1.tr).toArray
+    (witness (histOf (runSched sys (initCfg sampleScripts) sampleSched).1.tr)) = true := by
   decide
 
 end Hive.KV.Conc
